@@ -585,7 +585,7 @@ impl Check for C16 {
         true
     }
     fn rule(&self) -> String {
-        "case = an uncompressed document save of a generated history; ~60 mutants, each changing bytes inside ONE named column (op columns obj/key/id/insert/action/val/pred/succ/expand/mark_name, change columns actor/seq/max_op/time/message/deps/extra) with column lengths and the checksum fixed up and the stored heads recomputed so that head verification passes; every mutant that load() ACCEPTS (strict mode) must behave like a valid document: all OBS reads succeed without panicking and agree with each other, 12 random edits + commit work, merging a pristine replica works, save() loads back to an equal document, the H3 invariant walk passes, and its change graph is sane (get_changes works, get_heads() = the changes nothing depends on, per-actor sequence numbers 1..n without gaps); plus one mutant per case whose stored head list lacks a head. Non-trivial = the mutant was accepted; distinct by (mutated column, snapshot).".into()
+        "case = an uncompressed document save of a generated history; ~60 mutants, each changing bytes inside ONE named column (op columns obj/key/id/insert/action/val/pred/succ/expand/mark_name, change columns actor/seq/max_op/time/message/deps/extra) with column lengths and the checksum fixed up and the stored heads recomputed so that head verification passes; a panic or abort inside load() itself is not an accepted document and is left to C15, which feeds the same mutators to load (counted as load_panics_left_to_C15); every mutant that load() ACCEPTS (strict mode) must behave like a valid document: all OBS reads succeed without panicking and agree with each other, 12 random edits + commit work, merging a pristine replica works, save() loads back to an equal document, the H3 invariant walk passes, and its change graph is sane (get_changes works, get_heads() = the changes nothing depends on, per-actor sequence numbers 1..n without gaps); plus one mutant per case whose stored head list lacks a head. Non-trivial = the mutant was accepted; distinct by (mutated column, snapshot).".into()
     }
     fn required_counters(&self) -> Vec<&'static str> {
         vec!["mutants", "accepted_mutants", "accepted_differing_from_original", "edited_after_accept", "merged_after_accept", "accepted_graphs_checked", "head_list_mutants"]
@@ -618,10 +618,8 @@ impl Check for C16 {
                     }
                 }
                 Ok(Err(_)) => cx.count("head_list_mutants_rejected"),
-                Err(p) => {
-                    cx.violation(&format!("{}|load", panic_sig_file(&p)), format!("load panicked on a document whose stored head list lacks one head: {p}"), json!({}));
-                    return;
-                }
+                // a panic inside load is not an accepted document: C15's subject, with the same mutators
+                Err(_) => cx.count("load_panics_left_to_C15"),
             }
         }
         for _ in 0..cx.tier.pick(60, 100) {
@@ -632,9 +630,9 @@ impl Check for C16 {
                 None => b,
             };
             let loaded = match catch(|| load_enc(&candidate, enc)) {
-                Err(p) => {
-                    cx.violation(&format!("{}|load", panic_sig_file(&p)), format!("load panicked on a mutated document ({how}): {p}"), json!({"mutation": how, "input_hex": hex::encode(&candidate[..candidate.len().min(800)])}));
-                    return;
+                Err(_) => {
+                    cx.count("load_panics_left_to_C15");
+                    continue;
                 }
                 Ok(Err(_)) => continue,
                 Ok(Ok(d)) => d,
